@@ -2287,3 +2287,128 @@ Section WithOrd.
       + now rewrite app_nil_r.
       + intros h' [].
   Qed.
+
+  Lemma firstn_In' : forall A (x : A) n l, In x (firstn n l) -> In x l.
+  Proof. intros. rewrite <- (firstn_skipn n l). apply in_app_iff. now left. Qed.
+
+  Lemma skipn_In' : forall A (x : A) n l, In x (skipn n l) -> In x l.
+  Proof. intros. rewrite <- (firstn_skipn n l). apply in_app_iff. now right. Qed.
+
+  Lemma run_handles_wt : forall n s B,
+    Inv None s -> n <= List.length (ready s) ->
+    (forall h, In h (firstn n (ready s)) -> wt s h <= B) ->
+    exists new, ready (run_handles n s) = skipn n (ready s) ++ new /\
+      (forall h', In h' new -> wt (run_handles n s) h' < B) /\
+      (forall h', In h' (skipn n (ready s)) -> wt (run_handles n s) h' = wt s h').
+  Proof.
+    induction n as [ | n IH]; intros s B HI Hlen HB.
+    - exists []. simpl. splits; auto. now rewrite app_nil_r. intros h' [].
+    - simpl. destruct (ready s) as [ | h r] eqn:Hr; [simpl in Hlen; lia | ].
+      destruct (run_handle_wt HI Hr) as (new1 & E1 & L1 & S1). cbv zeta in E1, L1, S1.
+      set (s1 := run_handle h (set_ready r s)) in *.
+      assert (HI1 : Inv None s1) by (apply run_handle_Inv; auto).
+      simpl in Hlen. assert (Hn : n <= List.length r) by lia.
+      assert (Hf : firstn n (ready s1) = firstn n r).
+      { rewrite E1, firstn_app. replace (n - List.length r) with 0 by lia.
+        simpl. now rewrite app_nil_r. }
+      assert (Hs : skipn n (ready s1) = skipn n r ++ new1).
+      { rewrite E1, skipn_app. replace (n - List.length r) with 0 by lia. reflexivity. }
+      destruct (IH s1 B HI1) as (new2 & E2 & L2 & S2).
+      + rewrite E1, app_length. lia.
+      + rewrite Hf. intros h' Hh'. rewrite S1 by (eapply firstn_In'; eauto).
+        apply HB. simpl. right. exact Hh'.
+      + exists (new1 ++ new2). rewrite E2, Hs. simpl. splits.
+        * now rewrite app_assoc.
+        * intros h' Hh'. apply in_app_iff in Hh'. destruct Hh' as [Hh' | Hh']; auto.
+          rewrite S2 by (rewrite Hs; apply in_app_iff; now right).
+          specialize (L1 _ Hh'). specialize (HB h (or_introl eq_refl)). lia.
+        * intros h' Hh'. rewrite S2 by (rewrite Hs; apply in_app_iff; now left).
+          apply S1. eapply skipn_In'; eauto.
+  Qed.
+
+  (* the heaviest handle in the ready queue *)
+  Definition maxw (s : state) : nat := list_max (map (wt s) (ready s)).
+
+  Lemma maxw_ge : forall s h, In h (ready s) -> wt s h <= maxw s.
+  Proof.
+    intros s h Hin. unfold maxw.
+    pose proof (proj1 (list_max_le (map (wt s) (ready s)) _) (le_n _)) as H.
+    rewrite Forall_forall in H. apply H. now apply in_map.
+  Qed.
+
+  (* one turn of the loop: everything that is ready afterwards is lighter than
+     the heaviest handle that was ready before *)
+  Lemma yield_wt : forall s, Inv None s ->
+    forall h, In h (ready (yield s)) -> wt (yield s) h < maxw s.
+  Proof.
+    intros s HI h Hin. unfold Loop.yield in *.
+    destruct (@run_handles_wt (List.length (ready s)) s (maxw s) HI (le_n _)) as (new & E & L & _).
+    - intros h' Hh'. apply maxw_ge. eapply firstn_In'; eauto.
+    - rewrite E, skipn_all in Hin. simpl in Hin. auto.
+  Qed.
+
+  Fixpoint yields (n : nat) (s : state) : state :=
+    match n with
+    | 0 => s
+    | S m => yields m (yield s)
+    end.
+
+  Lemma wt_pos : forall s h, 1 <= wt s h.
+  Proof. intros s [tid | tid | tid]; simpl; auto; destruct (t_cancel _); lia. Qed.
+
+  Lemma yields_drain : forall n s, Inv None s -> maxw s <= n -> ready (yields n s) = [].
+  Proof.
+    induction n as [ | n IH]; intros s HI Hm; simpl.
+    - destruct (ready s) as [ | h r] eqn:Hr; auto.
+      pose proof (maxw_ge s h). rewrite Hr in H. specialize (H (or_introl eq_refl)).
+      pose proof (wt_pos s h). lia.
+    - apply IH.
+      + apply run_handles_Inv; auto.
+      + unfold maxw at 1. apply list_max_le. rewrite Forall_forall.
+        intros w Hw. apply in_map_iff in Hw. destruct Hw as (h & <- & Hh).
+        pose proof (yield_wt HI h Hh). lia.
+  Qed.
+
+  Lemma run_app_yields : forall ops n, Forall wf_op ops ->
+    run (ops ++ repeat Yield n) = yields n (run ops).
+  Proof.
+    intros ops n Hwf. unfold Loop.run. rewrite fold_left_app. fold (Loop.run ord ops).
+    pose proof (run_Inv Hwf) as HI. revert HI. generalize (run ops) as s.
+    induction n as [ | n IH]; intros s HI; simpl; auto.
+    assert (E : step s Yield = yield s) by (unfold Loop.step; now rewrite (m_err (proj1 HI))).
+    rewrite E. apply IH. apply run_handles_Inv; auto.
+  Qed.
+
+  Lemma maxw_le_keys : forall s N,
+    (forall tid, t_key (tasks s tid) < N) -> maxw s <= N + 2.
+  Proof.
+    intros s N HN. unfold maxw. apply list_max_le. rewrite Forall_forall.
+    intros w Hw. apply in_map_iff in Hw. destruct Hw as (h & <- & _).
+    destruct h as [tid | tid | tid]; simpl; try lia;
+      destruct (t_cancel _); specialize (HN tid); lia.
+  Qed.
+
+  (* PROGRESS: after any history, [maxw] further turns of the loop empty the
+     ready queue (and then every cached entry is coherent) *)
+  Theorem yield_progress_thm : forall ops n, Forall wf_op ops ->
+    maxw (run ops) <= n ->
+    ready (run (ops ++ repeat Yield n)) = [] /\ coherent (run (ops ++ repeat Yield n)).
+  Proof.
+    intros ops n Hwf Hn.
+    assert (Hwf' : Forall wf_op (ops ++ repeat Yield n)).
+    { apply Forall_app. split; auto. apply Forall_forall. intros o Ho.
+      apply repeat_spec in Ho. subst. exact I. }
+    assert (E : ready (run (ops ++ repeat Yield n)) = []).
+    { rewrite run_app_yields by auto. apply yields_drain; auto. apply run_Inv; auto. }
+    split; auto. apply quiescent_coherent_thm; auto.
+  Qed.
+
+  Theorem yield_progress_keys_thm : forall ops N, Forall wf_op ops ->
+    (forall tid, t_key (tasks (run ops) tid) < N) ->
+    ready (run (ops ++ repeat Yield (N + 2))) = [] /\
+    coherent (run (ops ++ repeat Yield (N + 2))).
+  Proof.
+    intros ops N Hwf HN. apply yield_progress_thm; auto. now apply maxw_le_keys.
+  Qed.
+
+End WithOrd.
